@@ -13,8 +13,7 @@ Inductive oobs :=
 
 Definition raw_eqb (a b : raw) : bool :=
   match a, b with
-  | RRaise x, RRaise y => Bool.eqb x y
-  | RRaiseOther, RRaiseOther => true
+  | RRaise, RRaise | RRaiseOther, RRaiseOther => true
   | RVal x, RVal y => vtree_eqb x y
   | _, _ => false
   end.
@@ -33,13 +32,12 @@ Definition site_eqb (a b : site) : bool :=
   | _, _ => false
   end.
 
-Definition eres_ok (model : res eres) (seen : oobs) : bool :=
+Definition eres_ok (model : eres) (seen : oobs) : bool :=
   match model, seen with
-  | Done ENone, ONone => true
-  | Done (EVal VNull), ONone => true     (* a null value IS Python's None *)
-  | Done (EVal v), OVal w => vtree_eqb v w
-  | Done (EFail o), OOut c d m l => outcome_ok o c d m l
-  | Raised _, ORaised => true
+  | ENone, ONone => true
+  | EVal VNull, ONone => true            (* a null value IS Python's None *)
+  | EVal v, OVal w => vtree_eqb v w
+  | EFail o, OOut c d m l => outcome_ok o c d m l
   | _, _ => false
   end.
 
@@ -51,11 +49,10 @@ Definition ures_ok (model : res (uoutcome vtree)) (seen : oobs) : bool :=
   | _, _ => false
   end.
 
-Definition pres_ok (model : res (option outcome)) (seen : oobs) : bool :=
+Definition pres_ok (model : option outcome) (seen : oobs) : bool :=
   match model, seen with
-  | Done None, ONone => true
-  | Done (Some o), OOut c d m l => outcome_ok o c d m l
-  | Raised _, ORaised => true
+  | None, ONone => true
+  | Some o, OOut c d m l => outcome_ok o c d m l
   | _, _ => false
   end.
 
